@@ -42,6 +42,7 @@ void reset()
 void do_plan(int tier)
 {
   plan.nobs_ops = (int)sim_plan(tier ? 25 : 19);
+  sim_set_tso(sim_plan(4) == 0);
   for (int i = 0; i < plan.nobs_ops; i++) {
     static const uint8_t kinds[] = {C19_NEW_OBSERVABLE, C19_NEW_OBSERVER, C19_NEW_OBSERVER, C19_NOTIFY, C19_NOTIFY, C19_POLL, C19_POLL, C19_POLL,
                                     C19_DEL_OBSERVER, C19_DEL_OBSERVABLE};
